@@ -75,10 +75,10 @@ def run(ctx):
     for inc, outc, name, layout, cores, infmt in cells:
         paired = layout != "single"
         r1, r2 = pipe.gen_reads(rng, 6, ["GATTACAGA"], ["AAAGGGCCC"], paired, with_qual=(infmt == "fastq"))
-        if rng.random() < 0.4:
+        if rng.random() < (0.9 if (infmt == "fasta" and cores > 1) else 0.4):
             # record headers may hold any printable character after the id - also the ones that start a record ('>' in FASTA, '@' in FASTQ: HGVS
             # names such as c.20A>T, e-mail-like ids); both mates get the same comment
-            cm = [rng.choice([" c.20A>T", " x>y>z", " a@b", " @@", " >", " m.3243A>G 1:N:0"]) for _ in r1]
+            cm = [rng.choice([" c.20A>T", " x>y>z", " a@b", " @@", " >", " m.3243A>G 1:N:0", ""]) for _ in r1]
             r1 = [(n_.split()[0] + c_, s_, q_) for (n_, s_, q_), c_ in zip(r1, cm)]
             if r2:
                 r2 = [(n_.split()[0] + c_, s_, q_) for (n_, s_, q_), c_ in zip(r2, cm)]
